@@ -22,6 +22,8 @@ CONSTANTS Active,        \* regular slots that may be mined in this configuratio
           MaxCrashes,    \* process deaths injected by the model
           MaxForced,     \* forced reorgs (admin RPC)
           MaxRestarts,   \* restarts after an exception escaped the processing task
+          CbKinds,       \* what a block's coinbase may pay: "miner" (one output to the miner's script), "void" (a single
+                         \* OP_FALSE OP_RETURN output: a transaction that touches no script hash at all)
           Export
 
 None == -2
@@ -94,22 +96,24 @@ Init ==
 (* and the look-back rounds) or is down: a change between two steps that do not read the   *)
 (* daemon is indistinguishable from the same change just before the next read.            *)
 DaemonTurn == pc \in {"poll", "rg_calc", "down", "dead"}
-NewBlock(parent, S) ==
+CbOf(k) == IF k = "void" THEN <<[s |-> 6, v |-> 0]>> ELSE MinerCb
+CbJson(k) == IF k = "void" THEN <<<<6, 0>>>> ELSE <<<<Miner, 50>>>>
+NewBlock(parent, S, k) ==
   /\ nb < MaxBlocks /\ DaemonTurn
   /\ CanMineAll(TxSeq(ChainOf(parent)), S, Height(parent) + 1)
   /\ nb' = nb + 1
   /\ tree' = [b \in 0..(nb + 1) |-> IF b = nb + 1
-                THEN [parent |-> parent, height |-> Height(parent) + 1, txs |-> <<CB + nb + 1>> \o S, cb |-> MinerCb]
+                THEN [parent |-> parent, height |-> Height(parent) + 1, txs |-> <<CB + nb + 1>> \o S, cb |-> CbOf(k)]
                 ELSE tree[b]]
   /\ best' = nb + 1
 
-Mine == /\ \E S \in Candidates : NewBlock(best, S) /\ Ev([e |-> "mine", parent |-> best, txs |-> S])
+Mine == /\ \E S \in Candidates, k \in CbKinds : NewBlock(best, S, k) /\ Ev([e |-> "mine", parent |-> best, txs |-> S, cb |-> CbJson(k)])
         /\ fresh' = FALSE
         /\ UNCHANGED <<nforks, memVars, ctlVars, durVars, commits, crashes, forced, restarts, auxVars>>
 (* a competing block on an earlier block of the best chain; the daemon switches to it *)
 Fork == /\ nforks < MaxForks /\ nforks' = nforks + 1
-        /\ \E p \in { x \in Range(ChainOf(best)) : x # best } : \E S \in Candidates :
-             NewBlock(p, S) /\ Ev([e |-> "fork", parent |-> p, txs |-> S])
+        /\ \E p \in { x \in Range(ChainOf(best)) : x # best } : \E S \in Candidates, k \in CbKinds :
+             NewBlock(p, S, k) /\ Ev([e |-> "fork", parent |-> p, txs |-> S, cb |-> CbJson(k)])
                             /\ shrunk' = (shrunk \/ Height(p) + 1 < Height(best))
         /\ fresh' = FALSE
         /\ UNCHANGED <<memVars, ctlVars, durVars, commits, crashes, forced, restarts, why, rgDepth, f7, f7hole, behind>>
